@@ -44,7 +44,8 @@ def oracle(case, iline):
     if kv.get("stuck") == "1":
         # the known stall is exactly: after a hash failure every connected candidate has a finished transfer on every
         # open block (decided in the harness on the private state); any other stall is a different violation
-        bad.append(("liveness-stale-transfer" if kv.get("stale") == "1" else "liveness-stall",
+        bad.append(("liveness-stale-transfer" if kv.get("stale") == "1" else
+                    "liveness-stalled-leader" if kv.get("trickled") == "1" else "liveness-stall",
                     "the download made no progress for 4 x 125 s although an honest, unchoking peer holding every piece stayed "
                     "connected: completed=%s listed=%s pending=%s" % (kv.get("completed"), kv.get("listed"), kv.get("pending"))))
     return bad
